@@ -147,8 +147,12 @@ func (h *Harness) ScopeModel() []*report {
 				continue
 			}
 			compiled++
-			if c.Verdict == "JS" || c.Verdict == "ALL" || c.Verdict == "GO" {
-				reproduced++
+			// the real code shows THIS deviation if the disagreement is named after it
+			for _, f := range c.Features {
+				if f == c.Base() {
+					reproduced++
+					break
+				}
 			}
 		}
 		selftest["deviation_"+d+"_replayed"] = compiled
